@@ -23,8 +23,9 @@ import (
 //     visible through an appended set_tx_meta, is the ledger's balance.
 
 type resolver struct {
-	c     Case
-	decls map[string]gen.VarDecl
+	c        Case
+	decls    map[string]gen.VarDecl
+	withDebt bool // sourcePairs also lists pairs whose ledger balance is negative
 }
 
 func newResolver(c Case) *resolver {
@@ -156,7 +157,7 @@ func (r *resolver) sourcePairs() []pair {
 			return
 		}
 		p := pair{a, asset}
-		if !seen[p] && r.truth(p).Sign() >= 0 {
+		if !seen[p] && (r.withDebt || r.truth(p).Sign() >= 0) {
 			seen[p] = true
 			out = append(out, p)
 		}
@@ -195,14 +196,34 @@ func (r *resolver) sourcePairs() []pair {
 // withEarlyRequests appends a balance() origin for every source pair.
 func withEarlyRequests(c Case) (Case, int) {
 	r := newResolver(c)
+	// a pair in debt cannot be read with balance() (it fails, by design); overdraft() reads it,
+	// behind its feature flag: usable when the case already runs with the flag, or when the
+	// script does not call overdraft() at all (the flag then gates nothing in it)
+	flag, usesOD := false, false
+	for _, f := range c.In.Flags {
+		flag = flag || f == gen.FlagOverdraft
+	}
+	for _, v := range c.Prog.Vars {
+		usesOD = usesOD || v.Fn == "overdraft"
+	}
+	r.withDebt = flag || !usesOD
 	pairs := r.sourcePairs()
 	if len(pairs) == 0 {
 		return c, 0
 	}
 	n := c
 	n.Prog = c.Prog.Clone()
+	debt := false
 	for i, p := range pairs {
-		n.Prog.Vars = append(n.Prog.Vars, gen.VarDecl{Type: "monetary", Name: fmt.Sprintf("zz_pre%d", i), Fn: "balance", Args: []gen.Expr{*gen.Acc(p.acc), *gen.Asset(p.asset)}})
+		fn := "balance"
+		if r.truth(p).Sign() < 0 {
+			fn, debt = "overdraft", true
+		}
+		n.Prog.Vars = append(n.Prog.Vars, gen.VarDecl{Type: "monetary", Name: fmt.Sprintf("zz_pre%d", i), Fn: fn, Args: []gen.Expr{*gen.Acc(p.acc), *gen.Asset(p.asset)}})
+	}
+	if debt && !flag {
+		n.In = c.In.Clone()
+		n.In.Flags = append(n.In.Flags, gen.FlagOverdraft)
 	}
 	return n, len(pairs)
 }
